@@ -111,7 +111,7 @@ CHECKS = {
                 "every name is persisted; vsb's sequence is accepted for all write lists, also when abandoned temporaries are removed "
                 "first. Tied to the code by tracing the real `vsb backup` (strace -f -y) in four scenarios, projecting its storage "
                 "calls to the abstract operations, checking the shape against the model's vsb_run and running the verified checker "
-                "on the observed trace (a rejected operation is the crash point of the replay).",
+                "on the observed trace (a rejected operation is the crash point of the replay). Scenarios include runs with a non-fatal error (missing item, failing hook) that publish with a non-zero exit status.",
         "note": "Partial: that the kernel honours fsync is assumed (it is the property's own model); creation of a new group "
                 "directory is assumed persisted, as the property states; release build traced in the thorough tier.",
         "technique": "Coq proof (checker soundness + acceptance of vsb's op sequence) + projected system-call traces of the real binary",
@@ -164,7 +164,7 @@ CHECKS = {
                 "an empty file's data; add_file does not touch the reader for an empty file or a fingerprint hit. Tied to the code "
                 "by duplication-heavy real run histories: decoded unique/extern flags and entry sizes vs the extracted model, and "
                 "per-path byte counts of read(2) on source files from an strace of every run vs 0 / 1x / 2x the file size as the "
-                "dedup decision predicts. Also targeted histories in which content leaves the tree for one or two runs and returns while its group still stores it.",
+                "dedup decision predicts. Also targeted histories in which content leaves the tree for one or two runs and returns while its group still stores it. Every history carries never-edited files with pre-1970 modification times that have a sub-second part.",
         "note": "Source files static during runs; strace completeness assumed (paths whose open is missing from the trace are "
                 "skipped and counted).",
         "technique": "Coq proof + differential histories with system-call read counting",
@@ -229,7 +229,7 @@ CHECKS = {
                 "on the implementation's action list by an independent checker. End to end: the real `vsb upload` with real gpg "
                 "against the provider emulator (all three providers) on generated local storages, cloud states, limits, create / "
                 "upload faults and stray entries on either side: the actions it logs, its ok state and the cloud namespace afterwards "
-                "must equal the planner model's, and the property is evaluated on what the run did.",
+                "must equal the planner model's, and the property is evaluated on what the run did. A cloud group holding the temporary object of an interrupted upload of a backup it lacks: that backup must still be uploaded.",
         "note": "Names are numbers in the model (order-isomorphic to date strings). Listing-level inputs (temporaries, unexpected "
                 "entries) enter through the ok flag, which the end-to-end runs read off the tool's own error lines. gpg is a "
                 "pass-through stub in the planner-level part.",
